@@ -225,7 +225,7 @@ def iter_term(g, order, dests):
 def run(chk):
     common.quiet_trackpy()
     chk.coq()
-    n = 150 if chk.tier == 'quick' else 1500
+    n = 150 if chk.tier == 'quick' else 5000
     cases, terms, outs = [], [], []
     for k in range(n):
         c = gen_case(chk.rng, chk.tier)
@@ -253,7 +253,7 @@ def run(chk):
     if cases:
         chk.sample(jsonable(cases[0], outs[0]))
     # graph harness
-    ng = 200 if chk.tier == 'quick' else 3000
+    ng = 200 if chk.tier == 'quick' else 8000
     gterms, graphs = [], []
     for k in range(ng):
         g = gen_graph(chk.rng, chk.tier)
@@ -273,7 +273,7 @@ def run(chk):
     if graphs:
         chk.sample(dict(graph=graphs[0][0], impl_assignment={str(k): v for k, v in graphs[0][1].items()}))
     # iterative machines, exact
-    ni = 200 if chk.tier == 'quick' else 3000
+    ni = 200 if chk.tier == 'quick' else 8000
     iterms, igraphs = [], []
     for k in range(ni):
         g = gen_sq_graph(chk.rng, chk.tier)
